@@ -629,10 +629,21 @@ func rootReset(p *Prog, fn *ssa.Function, rootKey string) string {
 			if sc := x.Call.StaticCallee(); sc != nil && sc.Name() == "Clear" && len(x.Call.Args) > 0 && loadsFieldKey(p, x.Call.Args[0], rootKey) && onEveryPath(fn, x) {
 				res = "delegated to the root object's own Clear at " + p.instrPos(x)
 			}
+			// a helper method on the same receiver (reset(), resetLocked()) that resets the root on every path
+			if sc := x.Call.StaticCallee(); sc != nil && p.InUniverse(sc) && sc != fn && sc.Blocks != nil && sc.Signature.Recv() != nil &&
+				len(x.Call.Args) > 0 && len(fn.Params) > 0 && p.origin(x.Call.Args[0]) == ssa.Value(fn.Params[0]) && onEveryPath(fn, x) && !resetVisiting[sc] {
+				resetVisiting[sc] = true
+				if w := rootReset(p, sc, rootKey); w != "" {
+					res = w + " (in the helper " + sc.Name() + " called at " + p.instrPos(x) + ")"
+				}
+				delete(resetVisiting, sc)
+			}
 		}
 	})
 	return res
 }
+
+var resetVisiting = map[*ssa.Function]bool{}
 
 func loadsFieldKey(p *Prog, v ssa.Value, fk string) bool {
 	if u, ok := p.origin(v).(*ssa.UnOp); ok && u.Op == token.MUL {
